@@ -462,7 +462,8 @@ PROPS = {
                      "f64::powi(2) is one multiplication"],
     ),
     "C14": dict(
-        lean_modules=["AlphaG.Props.C14", "AlphaG.Props.C15", "AlphaG.Props.C14b", "AlphaG.Lemmas.TrackInit"],
+        lean_modules=["AlphaG.Props.C14", "AlphaG.Props.C15", "AlphaG.Props.C14b", "AlphaG.Lemmas.TrackInit",
+                      "AlphaG.Props.C14c", "AlphaG.Lemmas.NelderMead", "AlphaG.Lemmas.NelderMeadStep"],
         required_theorems=["AlphaG.C14." + t for t in [
             "cluster_total", "closest_t_range", "collinear_rejected", "fit_assert_unreachable", "fit_sites_total",
             "fit_sites_panic", "minBy_total", "minmax_some"]]
@@ -472,11 +473,17 @@ PROPS = {
                 "template_eq", "template_extremal", "template_first_last_rule", "template_panic_iff", "template_total",
                 "fit_init_panic_sites", "initial_simplex_shape", "initial_simplex_nondegenerate", "perturb_ne",
                 "fit_simplex_shape", "vertex_simplex_shape", "vertexInit_shape", "no_initial_parameters_iff",
-                "fit_init_panic_iff", "minmaxByKey_eq", "minByFold_panic_iff"]],
-        harness=[("c14", ["dev"]), ("c15", ["dev"]), ("c14b", ["dev"])],
+                "fit_init_panic_iff", "minmaxByKey_eq", "minByFold_panic_iff"]]
+            + ["AlphaG.C14c." + t for t in [
+                "nm_cases", "nm_terminates_shape", "nm_terminates", "step_best_monotone", "nm_best_monotone",
+                "nm_result_spec", "nm_no_panic_of_total_cost", "nm_panic_only_cost", "best_param_is_first_vertex",
+                "shrink_keeps_best", "fit_cases", "fit_panic_iff", "fit_panic_iff_full", "fit_no_panic_of_no_nan",
+                "fit_ok_spec", "fitVertex_cases", "vertex_fit_panic_sites", "xLaws"]]
+            + ["AlphaG.NelderMead." + t for t in ["sortSimplex_perm", "sortSimplex_head", "nextIter_cases"]],
+        harness=[("c14", ["dev"]), ("c15", ["dev"]), ("c14b", ["dev"]), ("c14c", ["dev"])],
         disagreement_is_failing_input=False,
-        disagreement_failing_modules=["c14b"],
-        oracle_failing_regex=r"panic|non-finite|not finite|NaN|outside|out of range|range",
+        disagreement_failing_modules=["c14b", "c14c"],
+        oracle_failing_regex=r"panic|non-finite|not finite|NaN|outside|out of range|range|not <=",
         level_text="Lean theorems for the logic of the reconstruction stages: clustering always returns (cluster_total); the "
                    "closest-approach parameter is within [-pi, pi] whenever it is not NaN (closest_t_range); the exact "
                    "collinearity test returns NoInitialParameters exactly when the circle through the three template points "
@@ -490,7 +497,14 @@ PROPS = {
                    "complex divisions defined' (guard_iff_circle_defined), the circle is the circumscribed circle with r > 0 "
                    "(circle_correct), the template points are first-min/last-max/first-closest, the simplex is non-degenerate "
                    "in every coordinate, NoInitialParameters is returned iff the selected points are collinear, and the stage "
-                   "panics only on < 3 points or a NaN radius deviation.",
+                   "panics only on < 3 points or a NaN radius deviation. Module C14c: argmin 0.8.1's Nelder-Mead and executor (stable "
+                   "sort with the NaN-false comparator, centroid, reflect/expand/contract/shrink, sd termination, IterState's "
+                   "best-cost rule), both cost functions and the fit glue are modelled operation by operation; "
+                   "Track::try_from(Cluster) and the fitted vertex of find_vertices agree with the model bit for bit; after the "
+                   "initial guess the only panic route of either fit is the cost function's NaN assert (fit_panic_iff_full, "
+                   "vertex_fit_panic_sites); the result is an evaluated point whose cost is <= that of every initial vertex "
+                   "(nm_result_spec), the best cost never increases (nm_best_monotone), at most max_iters iterations "
+                   "(nm_terminates_shape).",
         level_note="Partial, said plainly: that no NaN or infinity arises in f64 inside the Newton iteration, hypot/atan2, the "
                    "complex division for nearly collinear points, or argmin's Nelder-Mead cannot be proved here (no IEEE-754 "
                    "semantics in this toolchain); that half is adversarial sampling on the implementation under catch_unwind "
@@ -510,6 +524,9 @@ PROPS = {
         assumptions=["argmin Nelder-Mead and libm are uninterpreted", "IEEE comparison semantics: a comparison with NaN is false, partial_cmp with NaN is None",
                      "libm sin/cos/atan2/hypot are the same functions on both sides (the driver binds C hypot via @[extern], as core does for atan2)",
                      "uom quantities are the identity on SI base values; f64::sum starts from -0.0",
+                     "C14c: order laws of f64 on non-NaN values (OrdLaws); the cost (a -0.0-started sum of squares) is NaN only if a "
+                     "squared distance is (hypothesis of fit_no_panic_of_no_nan; whether a NaN arises in-domain is sampled); the std "
+                     "stable sort is an insertion sort for <= 20 elements (7 / 4 vertices here)",
                      "sort_unstable_by is modelled by a stable insertion sort (order among equal keys unspecified; generators use identical tracks for ties)"],
     ),
     "C10": dict(
